@@ -94,28 +94,81 @@ theorem eolLast_tail {a : Tok} {ts : List Tok} (h : EolLast (a :: ts)) : EolLast
   | nil => trivial
   | cons b ts => exact h.2
 
+/-- the token after an EOL token is on a strictly later line (what holds on hyphenated inputs,
+where the line counter can advance by more than one) -/
+def EolLastLt : List Tok → Prop
+  | a :: b :: ts => (a.word = [nl] → a.line < b.line) ∧ EolLastLt (b :: ts)
+  | _ => True
+
+theorem eolLastLt_tail {a : Tok} {ts : List Tok} (h : EolLastLt (a :: ts)) : EolLastLt ts := by
+  cases ts with
+  | nil => trivial
+  | cons b ts => exact h.2
+
+theorem eolLast_lt {ts : List Tok} (h : EolLast ts) : EolLastLt ts := by
+  induction ts with
+  | nil => trivial
+  | cons a ts ih =>
+    cases ts with
+    | nil => trivial
+    | cons b ts => exact ⟨fun ha => by have := h.1 ha; omega, ih h.2⟩
+
+theorem stepOne_mono {p : Nat} {ts : List Tok} (h : StepOne p ts) : Mono p ts := by
+  induction ts generalizing p with
+  | nil => trivial
+  | cons a ts ih => exact ⟨by have := h.1; omega, ih h.2⟩
+
+theorem mono_le {p : Nat} {ts : List Tok} (h : Mono p ts) : ∀ t ∈ ts, p ≤ t.line := by
+  induction ts generalizing p with
+  | nil => simp
+  | cons a ts ih =>
+    intro t ht
+    obtain ⟨h1, h2⟩ := h
+    rcases List.mem_cons.1 ht with rfl | ht
+    · exact h1
+    · have := ih h2 t ht; omega
+
 /-- after an EOL token the remaining tokens are on later lines -/
-theorem eol_next {a : Tok} {ts : List Tok} (h : EolLast (a :: ts)) (ha : a.word = [nl])
-    (hs : StepOne a.line ts) : ∀ t ∈ ts, a.line < t.line := by
+theorem eol_next {a : Tok} {ts : List Tok} (h : EolLastLt (a :: ts)) (ha : a.word = [nl])
+    (hs : Mono a.line ts) : ∀ t ∈ ts, a.line < t.line := by
   cases ts with
   | nil => simp
   | cons b ts =>
     have hb := h.1 ha
     intro t ht
-    have := stepOne_le (p := a.line + 1) (ts := b :: ts) ⟨Or.inl hb, hs.2⟩ t ht
-    omega
+    rcases List.mem_cons.1 ht with rfl | ht
+    · exact hb
+    · have := mono_le hs.2 t ht; omega
 
 /-! ### the output loop -/
 
 theorem renderLoop_cons (prev : Nat) (t : Tok) (ts : List Tok) :
     renderLoop prev (t :: ts) =
-      (if t.line = prev + 1 then [nl] else []) ++
+      List.replicate (t.line - prev) nl ++
       (if t.word ≠ [nl] then (if t.line = prev then [32] else []) ++ t.word else []) ++
       renderLoop t.line ts := rfl
 
+theorem splitLines_replicate (d : Nat) (rs : List Rune) :
+    splitLines (List.replicate d nl ++ rs) = List.replicate d [] ++ splitLines rs := by
+  induction d with
+  | zero => simp
+  | succ d ih => rw [List.replicate_succ, List.cons_append, splitLines_nl, ih]; rfl
+
+theorem getD_replicate_append (d j : Nat) (L : List (List Rune)) :
+    (List.replicate d ([] : List Rune) ++ L).getD j [] = if j < d then [] else L.getD (j - d) [] := by
+  induction d generalizing j with
+  | zero => simp
+  | succ d ih =>
+    cases j with
+    | zero => simp [List.replicate_succ]
+    | succ j =>
+      rw [List.replicate_succ, List.cons_append, List.getD_cons_succ, ih]
+      simp only [Nat.add_lt_add_iff_right, Nat.add_sub_add_right]
+
 /-- The first output line of `renderLoop prev ts` continues line `prev`; the output line `j + 1`
-holds the words of line `prev + 1 + j`. -/
-theorem renderLoop_lines (ts : List Tok) : ∀ prev, StepOne prev ts → EolLast ts →
+holds the words of line `prev + 1 + j`.  Token lines may advance by any amount (`Mono`): the loop
+writes one newline per line passed. -/
+theorem renderLoop_lines (ts : List Tok) : ∀ prev, Mono prev ts → EolLastLt ts →
     (∀ t ∈ ts, t.word = [nl] ∨ nl ∉ t.word) →
     (splitLines (renderLoop prev ts)).headD [] = contWords (wordsOnLine ts prev) ∧
     ∀ j, (splitLines (renderLoop prev ts)).tail.getD j [] =
@@ -127,21 +180,21 @@ theorem renderLoop_lines (ts : List Tok) : ∀ prev, StepOne prev ts → EolLast
   | cons t ts ih =>
     intro prev hs he hw
     obtain ⟨hl, hs'⟩ := hs
-    have he' := eolLast_tail he
+    have he' := eolLastLt_tail he
     have hw' : ∀ t ∈ ts, t.word = [nl] ∨ nl ∉ t.word := fun u hu => hw u (by simp [hu])
     obtain ⟨ih0, ihj⟩ := ih t.line hs' he' hw'
-    have hge := stepOne_le hs'
+    have hge := mono_le hs'
     rw [renderLoop_cons]
-    rcases hl with hl | hl
+    by_cases hl : t.line = prev
     · -- same line
-      have hne : ¬ t.line = prev + 1 := by omega
-      rw [if_neg hne]
+      have hd : t.line - prev = 0 := by omega
+      rw [hd, List.replicate_zero, List.nil_append]
       replace ih0 : (splitLines (renderLoop t.line ts)).headD [] = contWords (wordsOnLine ts prev) :=
         hl ▸ ih0
       replace ihj : ∀ j, (splitLines (renderLoop t.line ts)).tail.getD j [] =
           joinBlank (wordsOnLine ts (prev + 1 + j)) := hl ▸ ihj
       by_cases hnl : t.word = [nl]
-      · simp only [hnl, ne_eq, not_true_eq_false, if_false, List.nil_append, List.append_nil]
+      · simp only [hnl, ne_eq, not_true_eq_false, if_false, List.nil_append]
         simp only [wordsOnLine_cons, hnl, ne_eq, not_true_eq_false, and_false, if_false]
         exact ⟨ih0, ihj⟩
       · have hnot : nl ∉ t.word := (hw t (by simp)).resolve_left hnl
@@ -151,7 +204,7 @@ theorem renderLoop_lines (ts : List Tok) : ∀ prev, StepOne prev ts → EolLast
           · simp [nl] at h
           · exact hnot h
         rw [if_pos hnl, if_pos hl]
-        simp only [List.nil_append, List.singleton_append]
+        simp only [List.singleton_append]
         rw [splitLines_append _ _ hnot']
         refine ⟨?_, ?_⟩
         · have : t.line = prev ∧ t.word ≠ [nl] := ⟨hl, hnl⟩
@@ -160,93 +213,92 @@ theorem renderLoop_lines (ts : List Tok) : ∀ prev, StepOne prev ts → EolLast
           have : ¬ (t.line = prev + 1 + j ∧ t.word ≠ [nl]) := by omega
           simp only [List.tail_cons, wordsOnLine_cons, if_neg this]
           exact ihj j
-    · -- next line
-      have hne : ¬ t.line = prev := by omega
+    · -- a later line: `d + 1` newlines first
+      obtain ⟨d, hd⟩ : ∃ d, t.line = prev + (d + 1) := ⟨t.line - prev - 1, by omega⟩
+      have hsub : t.line - prev = d + 1 := by omega
       have h0 : wordsOnLine (t :: ts) prev = [] := by
         apply wordsOnLine_nil
         intro u hu
         rcases List.mem_cons.1 hu with rfl | hu
         · omega
         · have := hge u hu; omega
-      rw [if_pos hl, h0]
-      by_cases hnl : t.word = [nl]
-      · have hlater := eol_next he hnl hs'
-        have h1 : wordsOnLine ts t.line = [] := wordsOnLine_nil hlater
-        simp only [hnl, ne_eq, not_true_eq_false, if_false, List.append_nil, List.singleton_append]
-        rw [splitLines_nl]
-        refine ⟨by simp [contWords], ?_⟩
-        intro j
-        have : ¬ (t.line = prev + 1 + j ∧ t.word ≠ [nl]) := by simp [hnl]
-        simp only [List.tail_cons, wordsOnLine_cons, if_neg this]
-        cases j with
-        | zero =>
-          rw [getD_zero_headD, ih0, h1, ← hl, h1]
+      -- the words this token writes, and its line's words
+      have hW : ∃ W, (if t.word ≠ [nl] then (if t.line = prev then [32] else []) ++ t.word else []) = W ∧
+          nl ∉ W ∧ W ++ contWords (wordsOnLine ts t.line) = joinBlank (wordsOnLine (t :: ts) t.line) := by
+        by_cases hnl : t.word = [nl]
+        · have hlater := eol_next he hnl hs'
+          have h1 : wordsOnLine ts t.line = [] := wordsOnLine_nil hlater
+          refine ⟨[], by simp [hnl], by simp, ?_⟩
+          have : ¬ (t.line = t.line ∧ t.word ≠ [nl]) := by simp [hnl]
+          rw [wordsOnLine_cons, if_neg this, h1]
           simp [contWords, joinBlank]
-        | succ j =>
-          rw [getD_succ_tail, ihj j, hl]
-          congr 2; omega
-      · have hnot : nl ∉ t.word := (hw t (by simp)).resolve_left hnl
-        rw [if_pos hnl, if_neg hne]
-        simp only [List.nil_append, List.cons_append]
-        rw [splitLines_nl, splitLines_append _ _ hnot]
-        refine ⟨by simp [contWords], ?_⟩
-        intro j
-        simp only [List.tail_cons]
-        cases j with
+        · have hnot : nl ∉ t.word := (hw t (by simp)).resolve_left hnl
+          refine ⟨t.word, by rw [if_pos hnl, if_neg hl]; rfl, hnot, ?_⟩
+          have : t.line = t.line ∧ t.word ≠ [nl] := ⟨rfl, hnl⟩
+          rw [wordsOnLine_cons, if_pos this, joinBlank_cons]
+      obtain ⟨W, hWe, hWn, hWj⟩ := hW
+      rw [hWe, hsub, List.append_assoc, splitLines_replicate, splitLines_append _ _ hWn, ih0, hWj, h0]
+      refine ⟨by simp [List.replicate_succ, contWords], ?_⟩
+      intro j
+      rw [List.replicate_succ, List.cons_append, List.tail_cons, getD_replicate_append]
+      by_cases hj : j < d
+      · rw [if_pos hj]
+        have : wordsOnLine (t :: ts) (prev + 1 + j) = [] := by
+          apply wordsOnLine_nil
+          intro u hu
+          rcases List.mem_cons.1 hu with rfl | hu
+          · omega
+          · have := hge u hu; omega
+        rw [this]; rfl
+      · rw [if_neg hj]
+        obtain ⟨i, hi⟩ : ∃ i, j = d + i := ⟨j - d, by omega⟩
+        subst hi
+        rw [Nat.add_sub_cancel_left]
+        cases i with
         | zero =>
-          have : t.line = prev + 1 + 0 ∧ t.word ≠ [nl] := ⟨by omega, hnl⟩
-          simp only [List.getD_cons_zero, wordsOnLine_cons, if_pos this, joinBlank_cons, ih0]
-          rw [← hl]
-        | succ j =>
-          have : ¬ (t.line = prev + 1 + (j + 1) ∧ t.word ≠ [nl]) := by omega
-          simp only [List.getD_cons_succ, wordsOnLine_cons, if_neg this]
-          rw [ihj j, hl]
+          rw [List.getD_cons_zero]
+          congr 2; omega
+        | succ i =>
+          have : ¬ (t.line = prev + 1 + (d + (i + 1)) ∧ t.word ≠ [nl]) := by omega
+          rw [List.getD_cons_succ, ihj i, wordsOnLine_cons, if_neg this]
           congr 2; omega
 
-/-- ADJUSTED: two extra hypotheses `h1`, `he`; counterexamples in LC/Props/C11.lean. -/
-theorem render_lines' (toks : List Tok) (h2 : 2 ≤ toks.length) (hs : StepOne 1 toks)
-    (h1 : ∀ t, toks.head? = some t → t.line = 1) (he : EolLast toks)
+/-- for two or more tokens, `render` is `renderLoop 0` without its first newline -/
+theorem render_eq_loop (t t2 : Tok) (ts : List Tok) (h : 1 ≤ t.line) :
+    nl :: render (t :: t2 :: ts) = renderLoop 0 (t :: t2 :: ts) := by
+  have hr : render (t :: t2 :: ts) =
+      List.replicate (t.line - 1) nl ++ (if t.word ≠ [nl] then t.word else []) ++
+        renderLoop t.line (t2 :: ts) := rfl
+  have h0 : ¬ t.line = 0 := by omega
+  have hd : t.line - 0 = (t.line - 1) + 1 := by omega
+  rw [hr, renderLoop_cons 0 t, hd, List.replicate_succ, if_neg h0]
+  simp
+
+/-- `render_lines` for token lists whose lines start at 1 or later and never decrease (`Mono`), an
+EOL token being followed by a token of a strictly later line (`EolLastLt`). -/
+theorem render_lines_mono' (toks : List Tok) (h2 : 2 ≤ toks.length) (hs : Mono 1 toks)
+    (he : EolLastLt toks)
     (hw : ∀ t ∈ toks, t.word = [nl] ∨ (nl ∉ t.word ∧ t.word ≠ []))
     (k : Nat) (hk : 1 ≤ k) :
     (splitLines (render toks)).getD (k - 1) [] = joinBlank (wordsOnLine toks k) := by
   match toks, h2 with
   | t :: t2 :: ts, _ =>
-    have ht : t.line = 1 := h1 t rfl
-    have hs' : StepOne 1 (t2 :: ts) := by have := hs.2; rwa [ht] at this
-    have he' : EolLast (t2 :: ts) := eolLast_tail he
-    have hw' : ∀ u ∈ t2 :: ts, u.word = [nl] ∨ nl ∉ u.word := fun u hu =>
-      (hw u (List.mem_cons_of_mem _ hu)).imp id And.left
-    obtain ⟨r0, rj⟩ := renderLoop_lines (t2 :: ts) 1 hs' he' hw'
-    have hr : render (t :: t2 :: ts) =
-        (if t.word ≠ [nl] then t.word else []) ++ renderLoop 1 (t2 :: ts) := rfl
-    rw [hr]
-    by_cases hnl : t.word = [nl]
-    · have hlater := eol_next he hnl hs.2
-      rw [ht] at hlater
-      have h0 : wordsOnLine (t2 :: ts) 1 = [] := wordsOnLine_nil hlater
-      have hno : ∀ k, ¬ (t.line = k ∧ t.word ≠ [nl]) := by simp [hnl]
-      simp only [hnl, ne_eq, not_true_eq_false, if_false, List.nil_append]
-      rw [wordsOnLine_cons, if_neg (hno k)]
-      obtain ⟨j, rfl⟩ : ∃ j, k = j + 1 := ⟨k - 1, by omega⟩
-      cases j with
-      | zero => simp only [Nat.zero_add, Nat.sub_self]; rw [getD_zero_headD, r0, h0]; simp [contWords, joinBlank]
-      | succ j =>
-        simp only [Nat.add_sub_cancel]
-        rw [getD_succ_tail, rj j]
-        congr 2; omega
-    · have hnot : nl ∉ t.word := ((hw t (by simp)).resolve_left hnl).1
-      rw [if_pos hnl, splitLines_append _ _ hnot]
-      obtain ⟨j, rfl⟩ : ∃ j, k = j + 1 := ⟨k - 1, by omega⟩
-      cases j with
-      | zero =>
-        have : t.line = 0 + 1 ∧ t.word ≠ [nl] := ⟨by omega, hnl⟩
-        rw [wordsOnLine_cons, if_pos this]
-        simp only [Nat.add_sub_cancel, List.getD_cons_zero, joinBlank_cons, r0]
-      | succ j =>
-        have : ¬ (t.line = j + 1 + 1 ∧ t.word ≠ [nl]) := by intro h; have := h.1; omega
-        rw [wordsOnLine_cons, if_neg this]
-        simp only [Nat.add_sub_cancel, List.getD_cons_succ]
-        rw [rj j, show 1 + 1 + j = j + 1 + 1 by omega]
+    have hs0 : Mono 0 (t :: t2 :: ts) := ⟨Nat.zero_le _, hs.2⟩
+    have hw' : ∀ u ∈ t :: t2 :: ts, u.word = [nl] ∨ nl ∉ u.word := fun u hu =>
+      (hw u hu).imp id And.left
+    have rj := (renderLoop_lines (t :: t2 :: ts) 0 hs0 he hw').2 (k - 1)
+    rw [← render_eq_loop t t2 ts hs.1, splitLines_nl, List.tail_cons] at rj
+    rw [rj]
+    congr 2; omega
+
+/-- ADJUSTED: two extra hypotheses `h1`, `he`; counterexamples in LC/Props/C11.lean.
+(`_h1` is not needed any more since `render` writes the newlines up to the first token's line.) -/
+theorem render_lines' (toks : List Tok) (h2 : 2 ≤ toks.length) (hs : StepOne 1 toks)
+    (_h1 : ∀ t, toks.head? = some t → t.line = 1) (he : EolLast toks)
+    (hw : ∀ t ∈ toks, t.word = [nl] ∨ (nl ∉ t.word ∧ t.word ≠ []))
+    (k : Nat) (hk : 1 ≤ k) :
+    (splitLines (render toks)).getD (k - 1) [] = joinBlank (wordsOnLine toks k) :=
+  render_lines_mono' toks h2 (stepOne_mono hs) (eolLast_lt he) hw k hk
 
 /-! ### the tokenizer's token lists -/
 
@@ -400,7 +452,8 @@ theorem step_nl_toks (E : Env) (s : State)
     (h : ¬ (s.obuf ≠ [] ∧ s.obuf.getLast? = some hyphen)) :
     ∃ blk, (step E false s nl).doc.toks = s.doc.toks ++ blk ++ [⟨[nl], s.line⟩] ∧
       (∀ t ∈ blk, LineTok E s.line t) ∧
-      (step E false s nl).line = s.line + 1 + (if s.deferredWord = true then 1 else 0) := by
+      (step E false s nl).line =
+        s.line + 1 + (if s.deferredEOL = true then 1 else 0) + s.deferredLines := by
   obtain ⟨blk, hb, hp⟩ := appendLine_toks E s.doc s.line
     (if s.obuf ≠ [] then s.linebuf ++ [flushWord E s.obuf] else s.linebuf)
   refine ⟨blk, ?_, hp, ?_⟩
@@ -417,7 +470,7 @@ theorem step_nl_hyphen (E : Env) (s : State)
   unfold step
   rw [if_pos rfl, if_pos h]
 
-theorem step_other_doc (E : Env) (s : State) (r : Rune) (hr : r ≠ nl) (hd : s.deferredWord = false) :
+theorem step_other_doc (E : Env) (s : State) (r : Rune) (hr : r ≠ nl) (hd : s.deferredLines = 0) :
     (step E false s r).doc = s.doc ∧ (step E false s r).line = s.line := by
   unfold step
   rw [if_neg hr]
@@ -435,7 +488,8 @@ def ShapeInv (q : Tok → Bool) (s : State) : Prop :=
   LineShape q 0 true s.doc.toks ∧ endLine 0 s.doc.toks + 1 = s.line
 
 theorem shape_step_inv (E : Env) (q : Tok → Bool) (hq : ∀ l t, LineTok E l t → q t = false)
-    (s : State) (r : Rune) (hi : ShapeInv q s) (hd : s.deferredWord = false)
+    (s : State) (r : Rune) (hi : ShapeInv q s) (hde : s.deferredEOL = false)
+    (hd : s.deferredLines = 0)
     (hd' : (step E false s r).deferredEOL = false) : ShapeInv q (step E false s r) := by
   by_cases hr : r = nl
   · subst hr
@@ -446,7 +500,7 @@ theorem shape_step_inv (E : Env) (q : Tok → Bool) (hq : ∀ l t, LineTok E l t
       have := good_line q s.doc.toks blk ⟨[nl], s.line⟩ s.line hi.1 hi.2
         (fun t ht => ⟨(hb t ht).1, hq _ t (hb t ht)⟩) rfl
       unfold ShapeInv
-      rw [ht, hl, hd]
+      rw [ht, hl, hd, hde]
       exact ⟨this.1, by rw [this.2]; simp⟩
   · obtain ⟨h1, h2⟩ := step_other_doc E s r hr hd
     unfold ShapeInv
@@ -456,7 +510,7 @@ theorem shape_step_inv (E : Env) (q : Tok → Bool) (hq : ∀ l t, LineTok E l t
 theorem shape_scan_inv (E : Env) (q : Tok → Bool) (hq : ∀ l t, LineTok E l t → q t = false)
     (rs : List Rune) : ∀ s, ShapeInv q s →
     (∀ p, p <+: rs → (p.foldl (step E false) s).deferredEOL = false ∧
-      (p.foldl (step E false) s).deferredWord = false) →
+      (p.foldl (step E false) s).deferredLines = 0) →
     ShapeInv q (rs.foldl (step E false) s) := by
   induction rs with
   | nil => intro s hi _; exact hi
@@ -465,7 +519,7 @@ theorem shape_scan_inv (E : Env) (q : Tok → Bool) (hq : ∀ l t, LineTok E l t
     have h0 := hn [] (List.nil_prefix)
     have h1 := hn [r] (by simp [List.cons_prefix_cons])
     simp only [List.foldl_nil, List.foldl_cons] at h0 h1
-    apply ih (step E false s r) (shape_step_inv E q hq s r hi h0.2 h1.1)
+    apply ih (step E false s r) (shape_step_inv E q hq s r hi h0.1 h0.2 h1.1)
     intro p hp
     have := hn (r :: p) (by simpa [List.cons_prefix_cons] using hp)
     simpa using this
